@@ -18,4 +18,15 @@ print(' '.join(dict.fromkeys(c[:2])) or '$pid')")
   else st="MISSED by $checks"; fi
   echo "$id: $st" | tee -a $out.tmp
 done
-mv $out.tmp $out
+# merge with the lines of seeds not re-run this time
+python3 - "$out" "$out.tmp" <<'PY'
+import sys,re
+old={}
+try:
+    for l in open(sys.argv[1]): old[l.split(":")[0]]=l
+except FileNotFoundError: pass
+for l in open(sys.argv[2]): old[l.split(":")[0]]=l
+key=lambda k: (k.split("_")[0], int(k.split("_")[1]))
+open(sys.argv[1],"w").write("".join(old[k] for k in sorted(old, key=key)))
+PY
+rm -f $out.tmp
